@@ -2,6 +2,7 @@
 import Libvna.Model.FileFmt
 import Libvna.Model.TsOption
 import Libvna.Model.NpdScan
+import Libvna.Model.IterCtl
 import Libvna.Model.Scalar
 
 namespace Libvna.Drv
@@ -87,6 +88,18 @@ def stepNpd (args : List String) : String :=
   | ["scan"] =>
     let r := Libvna.Npd.scanLine [10]
     s!"ok eof {r.fields.length}"
+  | _ => "bad-op"
+
+/-- `iter <j> <limit>`: the loop control run on an iteration whose (j+1)-th iterate is the first to pass the test -/
+def stepIter (args : List String) : String :=
+  match args with
+  | [js, ls] =>
+    match js.toNat?, ls.toNat? with
+    | some j, some l =>
+      match Libvna.Iter.run (fun n : Nat => n + 1) (fun n => n == j + 1) l 0 with
+      | .converged _ k => s!"ok converged {k}"
+      | .failed k => s!"ok failed {k}"
+    | _, _ => "bad-args"
   | _ => "bad-op"
 
 end Libvna.Drv
